@@ -6,4 +6,5 @@ mod ibc;
 mod abci;
 mod ledger;
 mod oracle;
+mod proposal;
 mod validators;
